@@ -253,44 +253,7 @@ Section Rules2.
       runs (TkNative n_sort [VTable p; keyfn]) s (ok [VTable (length (st_heap s))] empty_env s') /\
       st_heap s' = st_heap s ++ [spec_sorted (sort_lt (st_heap s)) (key_by_cb of_key cb) tb] /\
       same_world s s'.
-  Proof.
-    intros Hp [Hnd _] Hcb Hval.
-    assert (Hn : is_keyed_native n_sort) by (right; right; reflexivity).
-    destruct tb as [|e0 tb0].
-    { eexists. split; [|split].
-      - apply runs_intro with (f := 0) (l := st_steps s); [lia| |discriminate].
-        rewrite F_unfold by lia. cbv zeta. rewrite (eval_native_keyed _ _ _ _ _ Hn).
-        cbn [length Nat.ltb Nat.leb last_n skipn Nat.sub bump st_heap]. rewrite Hp.
-        change (str_eqb n_sort n_sort) with true. unfold alloc_table. cbn [st_heap]. reflexivity.
-      - reflexivity.
-      - split; reflexivity. }
-    set (tb := e0 :: tb0) in *.
-    destruct (keys_run P host keyfn cb Hcb tb [] (bump s)) as (s1 & (f1 & l1 & E1 & N1) & X1).
-    assert (Hh : st_heap s1 = st_heap s) by (rewrite (ext_heap _ _ X1); reflexivity).
-    eexists. split; [|split].
-    - apply runs_intro with (f := f1) (l := N.max l1 (st_steps s)); [lia| |discriminate].
-      rewrite F_unfold by lia. cbv zeta. rewrite (eval_native_keyed _ _ _ _ _ Hn).
-      cbn [length Nat.ltb Nat.leb last_n skipn Nat.sub bump st_heap]. rewrite Hp.
-      unfold tb at 1. fold tb.
-      lift E1 N1. unfold ok at 1. cbv beta iota zeta. rewrite Hh, Hp.
-      rewrite list_eqb_tkey_refl. cbn [negb]. change (str_eqb n_sort n_sort) with true. cbv iota.
-      unfold alloc_table. rewrite Hh. reflexivity.
-    - cbn [st_heap set_heap]. f_equal. f_equal.
-      cbn [rev app]. rewrite combine_map_keyed.
-      rewrite (@stable_sort_is_sort_keyed tkey (sort_lt (st_heap s)) (fun v => key_valid v = true)).
-      + unfold spec_sorted, keyed.
-        rewrite (fold_left_map_snd _ _ _ (fun acc (e : tkey * value) => s_insert acc (fst e) (snd e))).
-        rewrite fold_s_insert; [reflexivity|].
-        cbn [app]. eapply Permutation_NoDup; [|exact Hnd].
-        apply Permutation_map. apply Permutation_sym.
-        eapply perm_trans; [apply Permutation_map, sort_keyed_perm|].
-        rewrite map_map. cbn [snd]. rewrite map_id. apply Permutation_refl.
-      + split.
-        * intros a b Da Db. apply sort_lt_asym; assumption.
-        * intros a b c Da Db Dc. apply sort_lt_cotrans; assumption.
-      + rewrite Forall_map. apply Forall_forall. intros e He. cbn [fst]. apply Hval. exact He.
-    - split; cbn [st_globals st_log set_heap]; [apply (ext_globals _ _ X1) | apply (ext_log _ _ X1)].
-  Qed.
+  Proof. exact (native_sort_correct_on P host keyfn cb s p tb). Qed.
 End Rules2.
 
 (* ------------------------------------------------------------------------------------------ *)
